@@ -757,7 +757,8 @@ def check_absent(d):
     t2 = doccases.impl_emit(py_drop_absent(d))
     if t != t2:
         if meta_all_absent(d) and t.replace("===\n\n", "===\n", 1) == t2:
-            return "a META block whose fields are all Absent leaves a blank line", PFX + "meta-all-absent-blank-line", t
+            # regression of the fixed finding C18-meta-all-absent-blank-line (/repo 1d4faf6): no longer attributed
+            return "a META block whose fields are all Absent leaves a blank line", None, t
         return "emit(d) differs from emit(d without its Absent values): an Absent value left a trace in the text", None, t
     if "Absent" in t or "ABSENT_" in t or "ABS::" in t or "gone too" in t:
         return "an Absent field (or its key / comments) was written out", None, t
@@ -960,6 +961,9 @@ def run(ctx):
                 what, fid, t = check_absent(c["doc"])
                 if what:
                     ctx.property_failure({"corpus": cf.name, "doc": c["doc"], "text": t}, what, finding=fid)
+                elif "expect_text" in c and t != c["expect_text"]:
+                    ctx.property_failure({"corpus": cf.name, "doc": c["doc"], "text": t, "expected_text": c["expect_text"]},
+                                         "corpus case: emitted text differs from the recorded one (an Absent value left a trace)")
             elif c["kind"] == "cli":
                 fails, ta = cli_check(c["text"], c["changes"], tmp)
                 for what, fids in fails:
